@@ -174,11 +174,21 @@ fn module_walk(ctx: &mut Ctx, bi: &BootInformation, payload: &[u8], pbase: usize
             let after = (a.next().is_some(), a.next().is_some());
             let nth1 = bi.module_tags().nth(1).map(|m| m as *const _ as *const u8 as usize);
             let cnt = bi.module_tags().count();
-            (first, ra, rb, after, nth1, cnt)
+            // internal iteration (fold, for_each, last) and the other position-based adapters (skip, step_by)
+            let folded: Vec<usize> = bi.module_tags().fold(vec![], |mut v, m| { v.push(m as *const _ as *const u8 as usize); v });
+            let mut each: Vec<usize> = vec![];
+            bi.module_tags().for_each(|m| each.push(m as *const _ as *const u8 as usize));
+            let last = bi.module_tags().last().map(|m| m as *const _ as *const u8 as usize);
+            let skip1: Vec<usize> = bi.module_tags().skip(1).map(|m| m as *const _ as *const u8 as usize).collect();
+            let step2: Vec<usize> = bi.module_tags().step_by(2).map(|m| m as *const _ as *const u8 as usize).collect();
+            (first, ra, rb, after, nth1, cnt, (folded, each, last, skip1, step2))
         });
         match r {
-            Out::Val((first, ra, rb, after, nth1, cnt)) => {
+            Out::Val((first, ra, rb, after, nth1, cnt, (folded, each, last, skip1, step2))) => {
                 let want: Vec<usize> = mods.iter().map(|m| pbase + m.off).collect();
+                if folded != want || each != want || last != want.last().copied() || skip1 != want.iter().copied().skip(1).collect::<Vec<_>>() || step2 != want.iter().copied().step_by(2).collect::<Vec<_>>() {
+                    ctx.violation("c03/modules/adapters", || format!("module iterator adapters: fold {:?}, for_each {:?}, last {:?}, skip(1) {:?}, step_by(2) {:?}; reference module tags at {:?}", folded.iter().map(|a| a.wrapping_sub(pbase)).collect::<Vec<_>>(), each.iter().map(|a| a.wrapping_sub(pbase)).collect::<Vec<_>>(), last.map(|a| a.wrapping_sub(pbase)), skip1.iter().map(|a| a.wrapping_sub(pbase)).collect::<Vec<_>>(), step2.iter().map(|a| a.wrapping_sub(pbase)).collect::<Vec<_>>(), mods.iter().map(|m| m.off).collect::<Vec<_>>()));
+                }
                 let mut got = vec![];
                 got.extend(first);
                 got.extend(ra.iter().copied());
